@@ -54,6 +54,37 @@ CLAIMED["C04"] = dict(
     technique="Lean 4 theorems (exact integer parse/print, bigint add/sub loops) + correspondence + exact-arithmetic oracle",
     design="§5 C04")
 
+CLAIMED["C01"] = dict(
+    text="Lean 4 proof that the model of escape_string (json_encoders.hpp; tied to the real function on every run, both flags, malformed UTF-8 "
+         "included) writes, for every byte string, text that a strict RFC 8259 string reader reads back as the original (escape_all_non_ascii off, "
+         "either escape_solidus). The document-level claims — parse(dump v) = v with int/float distinction and big numbers kept as text, "
+         "dump(parse(dump v)) = dump v bytewise, pretty = compact + white space, the three serialisation entry points agree, the text is strict "
+         "RFC 8259 denoting v — are decided per case on the real code over values x option records, with the Lean RFC 8259 reference parser as judge.",
+    note="Partial: only the string-escaping core is proved; \\uXXXX/surrogate arithmetic under escape_all_non_ascii, the pretty printer's layout "
+         "state machine and number printing are validated per case (Lean reference parser + exact arithmetic), not proved. -0.0 prints as 0.0 (equal values).",
+    technique="Lean 4 theorem (escape/unescape inverse) + correspondence + Lean RFC 8259 reference parser as oracle",
+    design="§5 C01")
+CLAIMED["C02"] = dict(
+    text="The real parser's accept/reject decision and value are compared on every run with a Lean 4 reference parser transcribed from RFC 8259 "
+         "(plus one production each for comments / trailing commas, and the nesting limit): bounded-exhaustive over token strings, generative "
+         "and mutational beyond, every comment/comma placement, depth limit-1/limit/limit+1, duplicate names in wide objects. Proved in Lean about "
+         "the reference: its strings are exactly the UTF-8 encodings of scalar-value sequences; leading zeros and raw control characters are "
+         "rejected for all continuations; flag behaviour on kernel-evaluated instances.",
+    note="Partial: the 2000-line parser state machine is not modelled, so nothing is proved about the code itself; assurance = differential testing "
+         "against a proved-about reference. wchar_t is not exercised. Known finding D22 (comment after the root value) is listed.",
+    technique="Lean 4 reference parser (theorems about the reference) + differential testing of the real parser against it",
+    design="§5 C02")
+CLAIMED["C03"] = dict(
+    text="Lean 4 proof, for every chunk size k >= 1 and every request sequence, that the model of stream_source (source.hpp; tied to the real class "
+         "by operation-sequence correspondence) hands out exactly the flat byte sequence (read/peek/read_chunk/eof), so source-based decoders see the "
+         "same bytes from a stream as from a buffer. Chunk independence of the JSON parser itself and agreement of parser / reader / stream reader with "
+         "1..16-byte buffers / iterator source / pull cursor (read_to and event-wise) are decided per input on the real code: every 2-way split, uniform "
+         "chunks 1..7, random splits, all prefixes of boundary texts.",
+    note="Partial: the JSON parser's suspend/resume logic and the cursor glue are observed (all deliveries must coincide), not proved; binary formats and "
+         "CSV deliveries are covered by their own streams as those harnesses land. Known finding D21 (cursor on value-less input) is listed; D1, D17, D23 fixed.",
+    technique="Lean 4 theorem (stream_source refines flat source, all chunk sizes) + correspondence + all-deliveries-agree oracle",
+    design="§5 C03")
+
 ALL = ["C%02d" % i for i in range(1, 21)]
 NOT_YET = "not claimed yet: the Lean model, theorems and correspondence harness for this property are still being built (see DESIGN.md §8 staging)"
 
